@@ -8,12 +8,23 @@ import (
 	"github.com/theory/sqljson/path/ast"
 )
 
+// applyIntCallback applies intCallback to x. The negation and the absolute
+// value of the smallest int64 do not fit in an int64, so for that one value it
+// applies floatCallback to its floating point value instead of letting the
+// integer operation wrap around.
+func applyIntCallback(x int64, intCallback intCallback, floatCallback floatCallback) any {
+	if x == math.MinInt64 {
+		return floatCallback(float64(x))
+	}
+	return intCallback(x)
+}
+
 // castJSONNumber casts num to a an int64 (preferably) or to a float64,
 // passing the result through intCallback or floatCallback, respectively.
 // Returns false if num cannot be parsed into an int64 or float64.
 func castJSONNumber(num json.Number, intCallback intCallback, floatCallback floatCallback) (any, bool) {
 	if integer, err := num.Int64(); err == nil {
-		return intCallback(integer), true
+		return applyIntCallback(integer, intCallback, floatCallback), true
 	} else if float, err := num.Float64(); err == nil {
 		return floatCallback(float), true
 	}
